@@ -18,7 +18,7 @@ import hugr.model as model
 from hugr._serialization.ops import OpType as SerialOp
 from hugr._serialization.serial_hugr import SerialHugr
 from hugr.exceptions import ParentBeforeChild
-from hugr.ops import Call, Const, Custom, DataflowOp, Module, Op
+from hugr.ops import Call, Const, Custom, DataflowOp, LoadConst, LoadFunc, Module, Op
 from hugr.tys import Kind, Type, ValueKind
 from hugr.utils import BiMap
 from hugr.val import Value
@@ -695,12 +695,35 @@ class Hugr(Mapping[Node, NodeData], Generic[OpVarCov]):
             metadata=[node.metadata if node.metadata else None for _, node in live],
         )
 
+    def _num_dataflow_ports(self, node: ToNode, direction: Direction) -> int | None:
+        """The number of value and static ports of a dataflow node in `direction`,
+        i.e. the offset the wire format gives to its state-order port.
+        None if the node is not a dataflow node.
+        """
+        op = self[node].op
+        if isinstance(op, Call):
+            sig = op.instantiation
+        elif isinstance(op, DataflowOp):
+            sig = op.outer_signature()
+        else:
+            return None
+        if direction == Direction.OUTGOING:
+            return len(sig.output)
+        # the static (function / constant) input sits right after the value inputs
+        has_static_input = isinstance(op, Call | LoadConst | LoadFunc)
+        return len(sig.input) + (1 if has_static_input else 0)
+
     def _constrain_offset(self, p: P) -> PortOffset:
         # An offset of -1 is a special case, indicating an order edge,
         # not counted in the number of ports.
         if p.offset < 0:
             assert p.offset == -1, "Only order edges are allowed with offset < 0"
-            offset = self.num_ports(p.node, p.direction)
+            # the order port comes after all the ports of the operation's
+            # signature, however many of them happen to be connected
+            n_ports = self._num_dataflow_ports(p.node, p.direction)
+            if n_ports is None:
+                n_ports = self.num_ports(p.node, p.direction)
+            offset = n_ports
         else:
             offset = p.offset
 
